@@ -46,7 +46,9 @@ plan('C11',
          Job(H, 'hostile', 'plain', quick=400, thorough=10000, shards=(2, 8), batch=25, case_timeout=200),
      ],
      post=post,
-     assumptions=COMMON_ASSUME + ['empty results of receive() (returned for control frames) are ignored: the property speaks of messages of non-zero length',
+     assumptions=COMMON_ASSUME + [
+         '30% of the raw handshakes send Connection: keep-alive, Upgrade (a token list that includes Upgrade, RFC 6455 4.2.1); 30% of the sizes above 70000 are powers of two from 128 KiB up to maxbig and their neighbours',
+         'empty results of receive() (returned for control frames) are ignored: the property speaks of messages of non-zero length',
                                   'for hostile and truncated streams only sanitizer reports, non-termination after the peer closed and negative message lengths are judged; std::bad_alloc for an absurd length counts as "connection failed"',
                                   'use of uninitialised values after a truncated frame header is invisible to ASan (see DESIGN.md section 9)'])
 T('C11', 'independent RFC 6455 framer/deframer on a socketpair against the real WebSocket object + library client/server over loopback + python hashlib for the accept key + hostile/cut frame streams under ASan',
